@@ -4,6 +4,7 @@ use crate::vm::continuation::Continuation;
 use crate::vm::gc;
 use crate::vm::gc::State;
 use crate::vm::lambda::Lambda;
+use crate::vm::opcode::OpCode;
 use crate::vm::vcell::VCell;
 use log::trace;
 use num::ToPrimitive;
@@ -470,8 +471,18 @@ impl Heap {
     ///
     /// Iterate the lambda byte code and mark any value that contains a reference type
     pub fn mark_lambda(&mut self, lambda: &Lambda) {
-        // Mark every bytecode cell
+        // Mark every bytecode cell, except the operand of JMP/JNT: it is a
+        // bytecode offset stored as VCell::Ptr, not a heap reference.
+        let mut jump_operand = false;
         for it in &lambda.bc {
+            if jump_operand {
+                jump_operand = false;
+                continue;
+            }
+            if let VCell::OpCode(OpCode::Jmp | OpCode::Jnt) = it {
+                jump_operand = true;
+                continue;
+            }
             self.mark_vcell(it)
         }
 
